@@ -7,6 +7,6 @@ CONSTANTS
   MinSize = 2
   CanFail = TRUE
   Oversized = "alone"
-  AttachFirst = "ifgrew"
-INVARIANT Property
+  AttachFirst = "always"
+INVARIANT PropertyKnown
 CHECK_DEADLOCK FALSE
